@@ -37,6 +37,9 @@ use std::cmp::Ord;
 #[cfg(feature = "std")]
 use std::collections::hash_map::RandomState;
 use std::iter::*;
+use std::marker::PhantomData;
+
+use indexmap::map::{IterMut2, MutableKeys};
 
 use crate::DoublePriorityQueue;
 
@@ -56,8 +59,12 @@ pub struct IterMut<'a, I: 'a, P: 'a, H: 'a = RandomState>
 where
     P: Ord,
 {
-    pq: &'a mut DoublePriorityQueue<I, P, H>,
-    pos: usize,
+    // The queue is only touched through this pointer before `iter` is created
+    // and after it has been dropped, so the map is mutably borrowed just once
+    // for the whole iteration.
+    pq: *mut DoublePriorityQueue<I, P, H>,
+    iter: Option<IterMut2<'a, I, P>>,
+    marker: PhantomData<&'a mut DoublePriorityQueue<I, P, H>>,
 }
 
 #[cfg(not(feature = "std"))]
@@ -65,16 +72,39 @@ pub struct IterMut<'a, I: 'a, P: 'a, H: 'a>
 where
     P: Ord,
 {
-    pq: &'a mut DoublePriorityQueue<I, P, H>,
-    pos: usize,
+    pq: *mut DoublePriorityQueue<I, P, H>,
+    iter: Option<IterMut2<'a, I, P>>,
+    marker: PhantomData<&'a mut DoublePriorityQueue<I, P, H>>,
 }
+
+// SAFETY: `IterMut` stands for the `&'a mut DoublePriorityQueue<I, P, H>` it was created from
+unsafe impl<I: Send, P: Send + Ord, H: Send> Send for IterMut<'_, I, P, H> {}
+unsafe impl<I: Sync, P: Sync + Ord, H: Sync> Sync for IterMut<'_, I, P, H> {}
 
 impl<'a, I: 'a, P: 'a, H: 'a> IterMut<'a, I, P, H>
 where
     P: Ord,
 {
     pub(crate) fn new(pq: &'a mut DoublePriorityQueue<I, P, H>) -> Self {
-        IterMut { pq, pos: 0 }
+        IterMut {
+            pq,
+            iter: None,
+            marker: PhantomData,
+        }
+    }
+}
+
+impl<'a, I: 'a, P: 'a, H: 'a> IterMut<'a, I, P, H>
+where
+    P: Ord,
+    H: BuildHasher,
+{
+    fn inner(&mut self) -> &mut IterMut2<'a, I, P> {
+        let pq = self.pq;
+        // SAFETY: `pq` comes from the `&'a mut` passed to `new` and is not
+        // used again until `iter` has been dropped (see `Drop`)
+        self.iter
+            .get_or_insert_with(|| unsafe { (*pq).store.map.iter_mut2() })
     }
 }
 
@@ -85,16 +115,12 @@ where
 {
     type Item = (&'a mut I, &'a mut P);
     fn next(&mut self) -> Option<Self::Item> {
-        use indexmap::map::MutableKeys;
-        let r: Option<(&'a mut I, &'a mut P)> = self
-            .pq
-            .store
-            .map
-            .get_index_mut2(self.pos)
-            .map(|(i, p)| (i as *mut I, p as *mut P))
-            .map(|(i, p)| unsafe { (i.as_mut().unwrap(), p.as_mut().unwrap()) });
-        self.pos += 1;
-        r
+        self.inner().next()
+    }
+
+    fn size_hint(&self) -> (usize, Option<usize>) {
+        let len = self.len();
+        (len, Some(len))
     }
 }
 
@@ -104,16 +130,7 @@ where
     H: BuildHasher,
 {
     fn next_back(&mut self) -> Option<Self::Item> {
-        use indexmap::map::MutableKeys;
-        let r: Option<(&'a mut I, &'a mut P)> = self
-            .pq
-            .store
-            .map
-            .get_index_mut2(self.pos)
-            .map(|(i, p)| (i as *mut I, p as *mut P))
-            .map(|(i, p)| unsafe { (i.as_mut().unwrap(), p.as_mut().unwrap()) });
-        self.pos -= 1;
-        r
+        self.inner().next_back()
     }
 }
 
@@ -123,7 +140,11 @@ where
     H: BuildHasher,
 {
     fn len(&self) -> usize {
-        self.pq.len()
+        match &self.iter {
+            Some(iter) => iter.len(),
+            // SAFETY: see `inner`
+            None => unsafe { (*self.pq).len() },
+        }
     }
 }
 
@@ -139,7 +160,9 @@ where
     P: Ord,
 {
     fn drop(&mut self) {
-        self.pq.heap_build();
+        self.iter = None;
+        // SAFETY: see `inner`
+        unsafe { (*self.pq).heap_build() };
     }
 }
 
